@@ -61,6 +61,7 @@ def strategy(tier):
       'kind': st.just('shared'),
       'ops': sized_list(weighted((5, st.tuples(st.just('create'), st.sampled_from(['a', 'b', 'c', '', None])).map(list)),
                                  (3, st.tuples(st.just('drop'), st.integers(0, 20)).map(list)),
+                                 (2, st.tuples(st.just('state'), st.integers(0, 20), st.sampled_from(['closed', 'closed', 'idle', 'open'])).map(list)),
                                  (1, st.just(['gc']))), 0, 30),
   })
   return st.one_of(single, single, ref, shared)
@@ -252,6 +253,7 @@ def _exec_singleton(plan):
 class MockSink(ClientMessageSink):
   def __init__(self, delay):
     ClientMessageSink.__init__(self)
+    self._st = ChannelState.Open
     self.delay = delay
     self.opens = 0
     self.closes = 0
@@ -259,7 +261,7 @@ class MockSink(ClientMessageSink):
 
   @property
   def state(self):
-    return ChannelState.Open
+    return self._st
 
   def Open(self):
     self.opens += 1
@@ -362,6 +364,12 @@ def _exec_shared(plan):
           raise Violation(ID, 'keys-mixed', 'key %r returned the sink of another key %s' % (key, where))
       holders.append((key, s))
       del s
+    elif op[0] == 'state':
+      # the shared connection fails / is closed / comes back while holders keep the sink
+      keyed = [h for k, h in holders if k and isinstance(h, RefCountedSink)]
+      if keyed:
+        h = keyed[op[1] % len(keyed)]
+        h.next_sink._st = {'closed': ChannelState.Closed, 'idle': ChannelState.Idle, 'open': ChannelState.Open}[op[2]]
     elif op[0] == 'drop':
       if holders:
         holders.pop(op[1] % len(holders))
